@@ -1034,10 +1034,25 @@ func expandPhis(e ExitPoint, depth int) []ExitPoint {
 			}
 		}
 	}
+	// boolean flags merged in the same block ("found") and tested on the way to the return select alternatives too
+	boolFacts := map[*ssa.Phi]bool{}
+	if phiBlock != blk {
+		for _, f := range Facts(blk) {
+			ff := f.StripNot()
+			if p, isPhi := ff.Cond.(*ssa.Phi); isPhi && p.Block() == phiBlock {
+				boolFacts[p] = ff.True
+			}
+		}
+	}
 	var out []ExitPoint
 	for j, pred := range phiBlock.Preds {
 		rs := make([]ssa.Value, len(e.Results))
 		feasible := true
+		for p, truth := range boolFacts {
+			if c, isC := p.Edges[j].(*ssa.Const); isC && c.Value != nil && c.Value.Kind() == constant.Bool && constant.BoolVal(c.Value) != truth {
+				feasible = false
+			}
+		}
 		for i, v := range e.Results {
 			if p, ok := v.(*ssa.Phi); ok && p.Block() == phiBlock {
 				rs[i] = p.Edges[j]
